@@ -25,8 +25,13 @@ def FRAME(name):
     return "#assigns:" in name or "#requires:" in name
 
 
+def dedupe(extra, own):
+    names = {t.name for t in own}
+    return own + [t for t in extra if t.name not in names]
+
+
 def tasks(ctx):
-    return filter_tasks([LemmaTask("lemma:readback", ac.readback_lemmas, [ac.A + "Write" + r for r in ac.MASKS] + [ac.A + "Read" + r for r in ac.MASKS] +
+    return filter_tasks(dedupe(ac.register_semantics_tasks(ctx), [LemmaTask("lemma:readback", ac.readback_lemmas, [ac.A + "Write" + r for r in ac.MASKS] + [ac.A + "Read" + r for r in ac.MASKS] +
                                    [ac.A + "WriteNR52", ac.A + "ReadNR52", ac.A + "WriteWaveRAM", ac.A + "ReadWaveRAM"]),
                          LemmaTask("lemma:stable", ac.stability_lemmas, [ac.A + "EndMachineCycle"]),
                          # wave RAM keeps its contents except through FF30-FF3F writes and the documented retrigger corruption
@@ -38,7 +43,7 @@ def tasks(ctx):
                          *[Task(ac.A + r, ac.A + r, overrides=ac.OV, keep=DAC) for r in ("WriteNR12", "WriteNR22", "WriteNR30", "WriteNR42")],
                          Task(ac.A + "WriteNR11", ac.A + "WriteNR11", overrides=ac.OV, keep=LEN), Task(ac.A + "WriteNR21", ac.A + "WriteNR21", overrides=ac.OV, keep=LEN),
                          Task(ac.A + "WriteNR31", ac.A + "WriteNR31", overrides=ac.OV, keep=LEN), Task(ac.A + "WriteNR41", ac.A + "WriteNR41", overrides=ac.OV, keep=LEN),
-                         Task(ac.A + "tickFrameSequencer", ac.A + "tickFrameSequencer", overrides=ac.OV, keep=FRAME)])
+                         Task(ac.A + "tickFrameSequencer", ac.A + "tickFrameSequencer", overrides=ac.OV, keep=FRAME)]))
 
 
 # components whose representation invariants the lemmas above assume in every reachable state (engine/closure.py adds
